@@ -316,3 +316,329 @@ Proof.
   intros [ls ->]. unfold run. rewrite <- fold_left_rev_right.
   induction (rev ls) as [|l t IH]; simpl; [apply ninv_init|apply step_ninv; exact IH].
 Qed.
+
+(* ---------- which frames have enqueued; results hand back the offered message ---------- *)
+
+Definition enq_pc (p : spc) : bool :=
+  match p with S4 ROk | SMA ROk _ | SDone ROk => true | _ => false end.
+Definition res_ok (i : nat) (p : spc) : Prop :=
+  match p with S4 (RErr m) | SMA (RErr m) _ | SDone (RErr m) => m = i | _ => True end.
+Definition enq_at (l : list spc) (j : nat) : bool :=
+  match nth_error l j with Some p => enq_pc p | None => false end.
+Definition res_ok_at (l : list spc) (j : nat) : Prop :=
+  match nth_error l j with Some p => res_ok j p | None => True end.
+
+Definition PT (l : list spc) (h : list item) : Prop :=
+  forall j, (In (Msg j) h <-> enq_at l j = true) /\ res_ok_at l j.
+
+Lemma PT_upd_same l h i p p' :
+  PT l h -> nth_error l i = Some p -> enq_pc p' = enq_pc p -> res_ok i p' -> PT (upd l i p') h.
+Proof.
+  intros H Hn He Hr j. specialize (H j). unfold enq_at, res_ok_at in *.
+  destruct (Nat.eq_dec i j) as [->|Hne].
+  - rewrite (nth_upd_eq _ _ _ _ Hn). rewrite Hn in H. rewrite He. tauto.
+  - rewrite (nth_upd_neq _ _ _ _ Hne). exact H.
+Qed.
+
+Lemma PT_marker l h : PT l h -> PT l (h ++ [Marker]).
+Proof.
+  intros H j. specialize (H j). split; [|tauto]. rewrite in_app_iff. simpl.
+  split; [intros [A|[A|[]]]; [tauto|discriminate]|intros; left; tauto].
+Qed.
+
+Lemma PT_enq l h i : PT l h -> nth_error l i = Some S3 -> PT (upd l i (S4 ROk)) (h ++ [Msg i]).
+Proof.
+  intros H Hn j. specialize (H j). unfold enq_at, res_ok_at in *. rewrite in_app_iff. simpl.
+  destruct (Nat.eq_dec i j) as [->|Hne].
+  - rewrite (nth_upd_eq _ _ _ _ Hn). simpl. tauto.
+  - rewrite (nth_upd_neq _ _ _ _ Hne). destruct H as [H1 H2]. split; auto.
+    split; [intros [A|[A|[]]]; [tauto|congruence]|intros; left; tauto].
+Qed.
+
+Lemma PT_app l h l1 : PT l h -> Forall (eq T0) l1 -> PT (l ++ l1) h.
+Proof.
+  intros H F j. specialize (H j). unfold enq_at, res_ok_at in *.
+  destruct (nth_error l j) as [p|] eqn:E.
+  - rewrite (nth_app_some _ _ _ _ E). exact H.
+  - assert (X : nth_error (l ++ l1) j = None \/ nth_error (l ++ l1) j = Some T0).
+    { destruct (nth_error (l ++ l1) j) eqn:E2; auto. right.
+      apply nth_error_None in E. rewrite nth_error_app2 in E2 by lia.
+      apply nth_error_In in E2. rewrite Forall_forall in F. rewrite (F _ E2). auto. }
+    destruct X as [-> | ->]; simpl; exact H.
+Qed.
+
+Lemma markers_0_notin h : markers h = 0 -> ~ In Marker h.
+Proof.
+  induction h as [|[i|] t IH]; simpl; intros H A; [auto | destruct A as [A|A]; [discriminate|exact (IH H A)] | discriminate].
+Qed.
+
+Record HInv (s : st) : Prop := {
+  h_pt : PT (ss s) (hist s);
+  h_nodup : NoDup (hist s)
+}.
+
+Lemma hinv_init : HInv init.
+Proof.
+  constructor; simpl; [|constructor].
+  intros j. unfold enq_at, res_ok_at. destruct j; simpl; split; auto; split; intros; try discriminate; tauto.
+Qed.
+
+Lemma nodup_snoc {A} (l : list A) x : NoDup l -> ~ In x l -> NoDup (l ++ [x]).
+Proof.
+  intros H Hx. apply NoDup_rev in H. rewrite <- (rev_involutive (l ++ [x])).
+  apply NoDup_rev. rewrite rev_app_distr. simpl. constructor; auto. rewrite <- in_rev. exact Hx.
+Qed.
+
+Lemma hinv_do_call s c k s' : do_call s c = (k, s') -> HInv s -> HInv s'.
+Proof.
+  intros H [I1 I2]. destruct (do_call_shape _ _ _ _ H) as
+    (l1 & l2 & l3 & Es & Ed & Ei & El & F1 & F2 & Ec & Em & En & Est & Eq & Eh & _).
+  constructor; rewrite ?Es, ?Eh; auto. apply PT_app; auto.
+Qed.
+
+Lemma hinv_add_log s e : HInv s -> HInv (add_log s e).
+Proof. intros []; constructor; simpl; auto. Qed.
+
+Ltac hsame Hn := match goal with HI : HInv _ |- _ => destruct HI as [I1 I2] end; constructor; simpl; auto;
+  eapply PT_upd_same; eauto; simpl; auto.
+
+Lemma hinv_sstep fail s i : NInv s -> HInv s -> HInv (sstep fail s i).
+Proof.
+  intros N HI. unfold sstep.
+  destruct (nth_error (ss s) i) as [p|] eqn:Hn; auto.
+  destruct (nth_error (si s) i) as [inf|] eqn:Hi; auto.
+  assert (Hr : res_ok i p).
+  { destruct HI as [I1 _]. specialize (I1 i). unfold res_ok_at in I1. rewrite Hn in I1. tauto. }
+  destruct p as [| | |w| |todo|k todo| |r|r a|r]; auto.
+  - destruct (wrong inf); hsame Hn.
+  - destruct (4 <=? status s); hsame Hn.
+  - hsame Hn.
+  - destruct (wc w); [hsame Hn|]. destruct (negb fail && word_eqb w (cur s)); hsame Hn.
+  - hsame Hn.
+  - destruct todo as [|c todo].
+    + destruct (boxok inf); hsame Hn.
+    + destruct (do_call s c) as [k s'] eqn:Hc.
+      pose proof (hinv_do_call _ _ _ _ Hc HI) as I'.
+      destruct (do_call_shape _ _ _ _ Hc) as (l1 & l2 & l3 & Es & _).
+      assert (Hn' : nth_error (ss s') i = Some (S2 (c :: todo))) by (rewrite Es; apply nth_app_some; auto).
+      destruct I' as [I1 I2]; constructor; simpl; auto. eapply PT_upd_same; eauto.
+  - destruct (child_done s k); auto. hsame Hn.
+  - destruct (rx_open s); [|hsame Hn].
+    destruct HI as [I1 I2]; constructor; simpl.
+    + apply PT_enq; auto.
+    + apply nodup_snoc; auto. intros A. apply (I1 i) in A. unfold enq_at in A. rewrite Hn in A. discriminate.
+  - destruct (closed s && (cnt s =? 1)); hsame Hn; destruct r; simpl in *; auto.
+  - destruct (ma_step fail s a) as [a' s'] eqn:Hma.
+    destruct (ma_step_eff _ _ _ _ _ Hma) as ((Es & Ed & Ei & Ec & Ecl & Est & Erx & _) & Hcase).
+    assert (Hn' : nth_error (ss s') i = Some (SMA r a)) by (rewrite Es; exact Hn).
+    set (P' := match a' with MAdone _ => SDone r | _ => SMA r a' end).
+    assert (A1 : enq_pc P' = enq_pc (SMA r a)) by (destruct a'; destruct r; reflexivity).
+    assert (A2 : res_ok i P') by (destruct a'; destruct r; simpl in *; auto).
+    assert (G : HInv (set_spc s' i P')).
+    { assert (I' : HInv s').
+      { destruct HI as [I1 I2].
+        destruct Hcase as [(Em & Eh & _) | [(_ & _ & _ & _ & _ & _ & Eh & _)
+           | [(Ea & Ea' & Em & Hrx & Eh & Eq & Eml) | (_ & _ & _ & _ & Eh & _)]]];
+          constructor; rewrite ?Es, ?Eh; auto.
+        - apply PT_marker; auto.
+        - apply nodup_snoc; auto. apply markers_0_notin. subst a.
+          pose proof (sumf_upd s_sending _ _ _ T0 Hn) as X. simpl in X.
+          destruct N as [_ _ N3]. destruct (marker s); simpl in *; lia. }
+      destruct I' as [I1 I2]. constructor; simpl; auto. eapply PT_upd_same; eauto. }
+    unfold P' in G. destruct a'; try exact G. apply hinv_add_log. exact G.
+Qed.
+
+Lemma hinv_dstep fail s j : NInv s -> HInv s -> HInv (dstep fail s j).
+Proof.
+  intros N HI. unfold dstep.
+  destruct (nth_error (ds s) j) as [p|] eqn:Hn; auto.
+  destruct p as [| |a|b]; auto.
+  - destruct HI; constructor; simpl; auto.
+  - destruct HI; constructor; simpl; auto.
+  - destruct (ma_step fail s a) as [a' s'] eqn:Hma.
+    destruct (ma_step_eff _ _ _ _ _ Hma) as ((Es & Ed & Ei & Ec & Ecl & Est & Erx & _) & Hcase).
+    assert (I' : HInv s').
+    { destruct HI as [I1 I2].
+      destruct Hcase as [(Em & Eh & _) | [(_ & _ & _ & _ & _ & _ & Eh & _)
+         | [(Ea & Ea' & Em & Hrx & Eh & Eq & Eml) | (_ & _ & _ & _ & Eh & _)]]];
+        constructor; rewrite ?Es, ?Eh; auto.
+      - apply PT_marker; auto.
+      - apply nodup_snoc; auto. apply markers_0_notin. subst a.
+        pose proof (sumf_upd d_sending _ _ _ D0 Hn) as X. simpl in X.
+        destruct N as [_ _ N3]. destruct (marker s); simpl in *; lia. }
+    destruct I' as [I1 I2].
+    destruct a'; constructor; simpl; auto.
+Qed.
+
+Theorem step_hinv s l : NInv s -> HInv s -> HInv (step s l).
+Proof.
+  intros N HI. destruct l as [c|i|i|j|j| | | | | | | ]; simpl.
+  - destruct (do_call s c) as [k s'] eqn:H. simpl. eapply hinv_do_call; eauto.
+  - apply hinv_sstep; auto.
+  - apply hinv_sstep; auto.
+  - apply hinv_dstep; auto.
+  - apply hinv_dstep; auto.
+  - unfold recv_step. destruct (cons s); auto.
+    destruct (kill_req s); [destruct HI; constructor; simpl; auto|].
+    destruct (stop_req s); [destruct HI; constructor; simpl; auto|].
+    destruct (rx_open s) eqn:Er; auto. destruct (q s) as [|[i|] rest]; auto;
+      destruct HI; constructor; simpl; auto.
+  - unfold handler_step. destruct (cons s) as [|i todo|i k todo|r|r]; auto.
+    + destruct todo as [|c todo].
+      * destruct (hfail_of s i); destruct HI; constructor; simpl; auto.
+      * destruct (do_call s c) as [k s'] eqn:H. pose proof (hinv_do_call _ _ _ _ H HI) as [].
+        constructor; simpl; auto.
+    + destruct (child_done s k); auto. destruct HI; constructor; simpl; auto.
+  - destruct (in_handler (cons s) && kill_req s); auto. destruct HI; constructor; simpl; auto.
+  - destruct (alive (cons s)); auto. destruct HI; constructor; simpl; auto.
+  - destruct (cons s); auto. destruct HI; constructor; simpl; auto.
+  - destruct (cons s); auto. destruct HI; constructor; simpl; auto.
+  - destruct (cons s); auto. destruct (rx_open s) eqn:Er; auto.
+    destruct HI; constructor; simpl; auto.
+Qed.
+
+(* ---------- channel / consumer invariant ---------- *)
+
+Definition drained_r (r : reason) : bool := match r with RDrained => true | _ => false end.
+
+Record QInv (s : st) : Prop := {
+  q_split : exists fl, hist s = taken s ++ fl /\ (rx_open s = true -> fl = q s);
+  q_alive : alive (cons s) = true -> rx_open s = true /\ exits s = [] /\ markers (taken s) = 0;
+  q_exit : forall r, cons s = CExit r ->
+           exits s = [] /\ (if drained_r r then markers (taken s) = 1 else markers (taken s) = 0);
+  q_dead : forall r, cons s = CDead r ->
+           exits s = [r] /\ rx_open s = false /\
+           (if drained_r r then markers (taken s) = 1 else markers (taken s) = 0)
+}.
+
+Lemma qinv_init : QInv init.
+Proof.
+  constructor; simpl; auto; try discriminate. exists []. auto.
+Qed.
+
+Lemma qinv_do_call s c k s' : do_call s c = (k, s') -> QInv s -> QInv s'.
+Proof.
+  intros H [I1 I2 I3 I4]. destruct (do_call_shape _ _ _ _ H) as
+    (l1 & l2 & l3 & Es & Ed & Ei & El & F1 & F2 & Ec & Em & En & Est & Eq & Eh & Er & Eml & Et & Eco & Eex).
+  constructor; rewrite ?Eh, ?Et, ?Er, ?Eq, ?Eco, ?Eex; auto.
+Qed.
+
+(* a step that leaves the consumer alone and either leaves the channel alone or enqueues
+   (which requires an open receiver) *)
+Lemma qinv_chan s s' :
+  QInv s -> taken s' = taken s -> cons s' = cons s -> exits s' = exits s -> rx_open s' = rx_open s ->
+  ((hist s' = hist s /\ q s' = q s) \/
+   (exists x, rx_open s = true /\ hist s' = hist s ++ [x] /\ q s' = q s ++ [x])) ->
+  QInv s'.
+Proof.
+  intros [I1 I2 I3 I4] Et Ec Ee Er H.
+  constructor; rewrite ?Et, ?Ec, ?Ee, ?Er; auto.
+  destruct I1 as (fl & E1 & E2). destruct H as [[Eh Eq]|(x & Hrx & Eh & Eq)]; rewrite Eh, Eq.
+  - exists fl; auto.
+  - exists (fl ++ [x]). split; [rewrite E1, app_assoc; auto|]. intros _. rewrite E2; auto.
+Qed.
+
+Lemma qinv_sstep fail s i : QInv s -> QInv (sstep fail s i).
+Proof.
+  intros HI. unfold sstep.
+  destruct (nth_error (ss s) i) as [p|] eqn:Hn; auto.
+  destruct (nth_error (si s) i) as [inf|] eqn:Hi; auto.
+  destruct p as [| | |w| |todo|k todo| |r|r a|r]; auto;
+    try (repeat match goal with |- context [if ?b then _ else _] => destruct b eqn:? end;
+         eapply qinv_chan; eauto; simpl; auto; fail).
+  - destruct todo as [|c todo].
+    + destruct (boxok inf); eapply qinv_chan; eauto; simpl; auto.
+    + destruct (do_call s c) as [k s'] eqn:Hc.
+      pose proof (qinv_do_call _ _ _ _ Hc HI) as I'. eapply qinv_chan; eauto; simpl; auto.
+  - destruct (rx_open s) eqn:Er; eapply qinv_chan; eauto; simpl; auto.
+    right. exists (Msg i). auto.
+  - destruct (ma_step fail s a) as [a' s'] eqn:Hma.
+    destruct (ma_step_eff _ _ _ _ _ Hma) as ((Es & Ed & Ei & Ec & Ecl & Est & Erx & Et & Eco & Eex & _) & Hcase).
+    assert (I' : QInv s').
+    { eapply qinv_chan; eauto.
+      destruct Hcase as [(Em & Eh & Eq & _) | [(_ & _ & _ & _ & _ & _ & Eh & Eq & _)
+         | [(Ea & Ea' & Em & Hrx & Eh & Eq & Eml) | (_ & _ & _ & _ & Eh & Eq & _)]]]; auto.
+      right. exists Marker. auto. }
+    destruct a'; eapply qinv_chan; eauto; simpl; auto.
+Qed.
+
+Lemma qinv_dstep fail s j : QInv s -> QInv (dstep fail s j).
+Proof.
+  intros HI. unfold dstep.
+  destruct (nth_error (ds s) j) as [p|] eqn:Hn; auto.
+  destruct p as [| |a|b]; auto; try (eapply qinv_chan; eauto; simpl; auto; fail).
+  destruct (ma_step fail s a) as [a' s'] eqn:Hma.
+  destruct (ma_step_eff _ _ _ _ _ Hma) as ((Es & Ed & Ei & Ec & Ecl & Est & Erx & Et & Eco & Eex & _) & Hcase).
+  assert (I' : QInv s').
+  { eapply qinv_chan; eauto.
+    destruct Hcase as [(Em & Eh & Eq & _) | [(_ & _ & _ & _ & _ & _ & Eh & Eq & _)
+       | [(Ea & Ea' & Em & Hrx & Eh & Eq & Eml) | (_ & _ & _ & _ & Eh & Eq & _)]]]; auto.
+    right. exists Marker. auto. }
+  destruct a'; eapply qinv_chan; eauto; simpl; auto.
+Qed.
+
+Theorem step_qinv s l : QInv s -> QInv (step s l).
+Proof.
+  intros HI. destruct l as [c|i|i|j|j| | | | | | | ]; simpl.
+  - destruct (do_call s c) as [k s'] eqn:H. simpl. eapply qinv_do_call; eauto.
+  - apply qinv_sstep; auto.
+  - apply qinv_sstep; auto.
+  - apply qinv_dstep; auto.
+  - apply qinv_dstep; auto.
+  - (* LRecv *) unfold recv_step. destruct (cons s) eqn:Ec; auto.
+    destruct HI as [I1 I2 I3 I4]. rewrite Ec in I2. destruct (I2 eq_refl) as (Hrx & Hex & Hmk).
+    destruct (kill_req s); [constructor; simpl; auto; try discriminate; intros r [= <-]; auto|].
+    destruct (stop_req s); [constructor; simpl; auto; try discriminate; intros r [= <-]; auto|].
+    rewrite Hrx. destruct I1 as (fl & E1 & E2). specialize (E2 Hrx). subst fl.
+    destruct (q s) as [|[i|] rest] eqn:Eq.
+    + constructor; rewrite ?Ec; auto; try discriminate. exists []. auto.
+    + constructor; simpl; rewrite ?markers_app; simpl; auto; try discriminate.
+      * exists rest. rewrite E1, <- app_assoc. auto.
+      * intros _. repeat split; auto. lia.
+    + constructor; simpl; rewrite ?markers_app; simpl; auto; try discriminate.
+      * exists rest. rewrite E1, <- app_assoc. auto.
+      * intros r [= <-]. simpl. split; auto. lia.
+  - (* LH *) unfold handler_step. destruct (cons s) as [|i todo|i k todo|r|r] eqn:Ec; auto.
+    + destruct todo as [|c todo].
+      * destruct HI as [I1 I2 I3 I4]. rewrite Ec in I2. destruct (I2 eq_refl) as (Hrx & Hex & Hmk).
+        destruct (hfail_of s i); constructor; simpl; auto; try discriminate. intros r [= <-]; auto.
+      * destruct (do_call s c) as [k s'] eqn:H. pose proof (qinv_do_call _ _ _ _ H HI) as [I1 I2 I3 I4].
+        destruct (do_call_shape _ _ _ _ H) as (_ & _ & _ & _ & _ & _ & _ & _ & _ & _ & _ & _ & _ & _ & _ & _ & _ & _ & Eco & _).
+        rewrite Eco, Ec in I2.
+        constructor; simpl; auto; try discriminate.
+    + destruct (child_done s k); auto.
+      destruct HI as [I1 I2 I3 I4]. rewrite Ec in I2. constructor; simpl; auto; try discriminate.
+  - (* LKillNow *) destruct (in_handler (cons s) && kill_req s) eqn:E; auto.
+    apply andb_true_iff in E as [E _].
+    destruct HI as [I1 I2 I3 I4].
+    assert (A : alive (cons s) = true) by (destruct (cons s); simpl in *; auto; discriminate).
+    destruct (I2 A) as (Hrx & Hex & Hmk).
+    constructor; simpl; auto; try discriminate. intros r [= <-]; auto.
+  - (* LCrash *) destruct (alive (cons s)) eqn:A; auto.
+    destruct HI as [I1 I2 I3 I4]. destruct (I2 A) as (Hrx & Hex & Hmk).
+    constructor; simpl; auto; try discriminate. intros r [= <-]; auto.
+  - destruct (cons s) eqn:Ec; auto. destruct HI as [I1 I2 I3 I4]. constructor; simpl; auto.
+  - destruct (cons s) eqn:Ec; auto. destruct HI as [I1 I2 I3 I4]. constructor; simpl.
+    + destruct I1 as (fl & E1 & _). exists fl. split; auto. discriminate.
+    + rewrite Ec. discriminate.
+    + rewrite Ec. intros r0 [= <-]. apply I3; auto.
+    + rewrite Ec. discriminate.
+  - destruct (cons s) eqn:Ec; auto. destruct (rx_open s) eqn:Er; auto.
+    destruct HI as [I1 I2 I3 I4]. destruct (I3 _ Ec) as [Hex Hmk].
+    constructor; simpl; auto; try discriminate. intros r' [= <-]. rewrite Hex. auto.
+Qed.
+
+(* ---------- all invariants of reachable states ---------- *)
+
+Record Inv (s : st) : Prop := { inv_n : NInv s; inv_h : HInv s; inv_q : QInv s }.
+
+Theorem step_inv s l : Inv s -> Inv (step s l).
+Proof. intros [N H Q]. constructor; [apply step_ninv|apply step_hinv|apply step_qinv]; auto. Qed.
+
+Theorem run_inv s ls : Inv s -> Inv (run s ls).
+Proof. revert s; induction ls as [|l t IH]; simpl; intros s I; auto. apply IH, step_inv, I. Qed.
+
+Theorem reachable_inv s : reachable s -> Inv s.
+Proof.
+  intros [ls ->]. apply run_inv. constructor; [apply ninv_init|apply hinv_init|apply qinv_init].
+Qed.
